@@ -16,7 +16,7 @@ SVC = "c19.TestService"
 # contract of google::protobuf::RpcChannel::CallMethod; it is only made in cases whose header says obs=1, and
 # what the code then does (entry erased, closure neither run nor deleted) is counted, never reported
 OBS_KEY_NULLRESP = "obs-null-response-closure-dropped"
-# proposed finding (findings/C19.md): a service completes a deferred request after the connection went down;
+# finding F-21 (findings/C19.md, recorded in KNOWN_FINDINGS.txt): a service completes a deferred request after the connection went down;
 # RpcServer::onConnection destroyed the channel, the done callback holds the raw `this`
 UAF_KEY = "done-after-down-use-after-free"
 
@@ -85,6 +85,8 @@ def oracle(case, lines):
     (op index, key, message); empty = the property holds on this history."""
     bad = []
     hdr = case.header.split()
+    if "sys=1" in hdr:
+        return sys_oracle(case, lines)
     svc_on = "svc=1" in hdr or "svc=2" in hdr      # the channel has the service table
     server_owned = "svc=1" in hdr                 # made by RpcServer::onConnection: destroyed on DOWN
     down = False
@@ -621,7 +623,7 @@ def gen_down(rng, tier):
             elif x < 0.9 and ncall:
                 ops.append(resp(rng.randint(1, ncall), rng))
             elif mode != 1 and len(helpers) < 2:
-                t = len(helpers) + 1
+                t = min(u for u in (1, 2) if u not in helpers)
                 ncall += 1
                 helpers[t] = ["R %d" % t, "S %d" % t]
                 ops.append("F %d %d 1 1 Echo %s" % (t, ncall, req_of(ncall)))
@@ -658,6 +660,147 @@ def gen_down(rng, tier):
         ops += ["DONE %d 01" % i for i in range(k) if i != late and rng.random() < 0.5]
         ops += ["DOWN", "DONE %d 02" % late]
         yield vlib.Case("downuaf%d" % j, "svc=1", ops, "down-done-after")
+
+
+# --------------------------------------------------------------------------- two channels (client + server)
+def sys_oracle(case, lines):
+    """The first and last sentence of the property joined, on a trace of TWO real channels: every closure runs at most
+    once, only when the client reads, and sees the reply the service made for ITS request (Echo: the request itself;
+    Defer: the data the service supplied when it completed the callback it was handed for that request; a call to the
+    unregistered service: nothing, an error reply); once everything has been pumped and completed, exactly once."""
+    bad = []
+    if len(lines) < len(case.ops) + 3:
+        return [(len(lines) - 1, "truncated", "implementation produced %d lines for %d ops" % (len(lines), len(case.ops)))]
+    calls = {}            # tag -> (meth, req hex, has closure)
+    thread_call = {}
+    runs = {}
+    tok_req = {}          # token -> request data the service was handed
+    tok_reply = {}        # token -> data the service replied
+    outs = {}
+    for idx, op in enumerate(case.ops):
+        m = LINE.match(lines[idx + 1])
+        if not m:
+            return bad + [(idx, "unparsable", "unparsable output %r" % lines[idx + 1])]
+        status, evs, outs = m.group(1), _lst(m.group(2)), _outs(m.group(4))
+        t = op.split()
+        k = t[0]
+        if status == "rejected":
+            if evs:
+                bad.append((idx, "rejected-op-acted", "a rejected op produced %s" % evs))
+            continue
+        if k == "CALL":
+            calls[t[1]] = (t[4], t[5], t[3] == "1")
+        elif k == "F":
+            calls[t[2]] = (t[5], t[6], t[4] == "1")
+        elif k == "DONE":
+            tok_reply[int(t[1])] = "-" if t[2] == "-" else t[2]
+        for e in evs:
+            p = e.split(":")
+            if p[0] == "dispatch":
+                if k != "PUMPS":
+                    bad.append((idx, "sys-dispatch", "the service was called in op %r" % op))
+                tok_req[int(p[1])] = (p[2], p[3])
+            elif p[0] == "run":
+                tag, seen = p[1], e.split(":", 2)[2]
+                runs[tag] = runs.get(tag, 0) + 1
+                if runs[tag] > 1:
+                    bad.append((idx, "closure-twice", "closure of call %s ran %d times" % (tag, runs[tag])))
+                if k != "PUMPC":
+                    bad.append((idx, "closure-without-response", "closure of call %s ran in op %r" % (tag, op)))
+                if tag not in calls:
+                    bad.append((idx, "wrong-closure", "closure of an unknown call %s" % tag))
+                    continue
+                meth, req, _ = calls[tag]
+                reqd = "-" if req in ("-", "") else req
+                if meth == "Ping":
+                    want = "untouched"
+                elif meth == "Echo":
+                    want = "parsed:" + reqd
+                else:
+                    ks = [kk for kk, (mm, rq) in tok_req.items() if mm == "Defer" and rq == reqd and kk in tok_reply]
+                    want = ("parsed:" + tok_reply[ks[0]]) if len(ks) == 1 else "<the service has not replied to this call's request>"
+                if seen != want:
+                    bad.append((idx, "wrong-reply", "closure of call %s (%s %s) saw %s, the service's reply for its request is %s"
+                                % (tag, meth, req, seen, want)))
+            elif p[0] in ("send", "reply"):
+                bad.append((idx, "sys-frame-visible", "frame event %s in a two-channel case" % e))
+    if "quiesce=1" in case.header.split():
+        for tag, (meth, req, d) in calls.items():
+            n = runs.get(tag, 0)
+            if n != (1 if d else 0):
+                bad.append((len(case.ops), "not-exactly-once", "nothing is in flight any more: closure of call %s (%s) ran %d times" % (tag, meth, n)))
+        if outs:
+            bad.append((len(case.ops), "not-erased", "nothing is in flight but calls are still outstanding: %s" % sorted(outs)))
+    fm = FINAL.match(lines[len(case.ops) + 1])
+    if not fm:
+        bad.append((len(case.ops), "unparsable", "bad final line %r" % lines[len(case.ops) + 1]))
+    elif fm.group(2) != "-" or fm.group(3) != "-":
+        bad.append((len(case.ops), "closure-leaked", "leaked: %s %s" % (fm.group(2), fm.group(3))))
+    return bad
+
+
+def gen_sys(rng, tier):
+    """two real channels: random interleavings of calls (loop thread and helper threads cut at their micro-steps),
+    the server reading, the service completing deferred requests in any order, the client reading"""
+    count = 300 if tier == "quick" else 15000
+    for j in range(count):
+        ops, tag, helpers = [], 0, {}
+        wire, ntok, open_toks = [], 0, []             # requests written and not yet read by the server: (meth)
+        for _ in range(rng.randint(3, 14)):
+            x = rng.random()
+            if x < 0.3:
+                tag += 1
+                meth = rng.choice(["Echo", "Defer", "Defer", "Ping"])
+                ops.append("CALL %d 1 %d %s %s" % (tag, rng.choice([1, 1, 1, 0]), meth, req_of(tag)))
+                wire.append(meth)
+            elif x < 0.45 and len(helpers) < 2:
+                t = min(u for u in (1, 2) if u not in helpers)
+                tag += 1
+                meth = rng.choice(["Echo", "Defer", "Ping"])
+                helpers[t] = (["R %d" % t, "S %d" % t], meth)
+                ops.append("F %d %d 1 1 %s %s" % (t, tag, meth, req_of(tag)))
+            elif x < 0.6:
+                for t in list(helpers):
+                    steps, meth = helpers[t]
+                    if steps:
+                        st = steps.pop(0)
+                        ops.append(st)
+                        if st.startswith("S"):
+                            wire.append(meth)
+                            del helpers[t]
+                        break
+            elif x < 0.75:
+                ops.append("PUMPS")
+                for meth in wire:
+                    if meth in ("Echo", "Defer"):
+                        if meth == "Defer":
+                            open_toks.append(ntok)
+                        ntok += 1
+                wire = []
+            elif x < 0.88:
+                if open_toks and rng.random() < 0.9:
+                    ops.append("DONE %d %02x" % (open_toks.pop(rng.randrange(len(open_toks))), rng.randrange(256)))
+                else:
+                    ops.append("DONE %d 00" % (ntok + 2))
+            else:
+                ops.append("PUMPC")
+        hdr = "svc=0 sys=1"
+        if rng.random() < 0.8:
+            for t in sorted(helpers):
+                ops += helpers[t][0]
+                wire.append(helpers[t][1])
+            helpers = {}
+            ops.append("PUMPS")
+            for meth in wire:
+                if meth in ("Echo", "Defer"):
+                    if meth == "Defer":
+                        open_toks.append(ntok)
+                    ntok += 1
+            rng.shuffle(open_toks)
+            ops += ["DONE %d %02x" % (k, rng.randrange(256)) for k in open_toks]
+            ops.append("PUMPC")
+            hdr += " quiesce=1"
+        yield vlib.Case("sys%d" % j, hdr, ops, "two-channels")
 
 
 # --------------------------------------------------------------------------- RpcMessage wire format
@@ -946,6 +1089,8 @@ def nontrivial(case, lines):
             ev.add("immediate")
         if k == "DOWN" and m.group(1) == "ok":
             ev.add("down")
+        if k in ("PUMPS", "PUMPC"):
+            ev.add("two-channels")
         if k in ("SER", "WIRE"):
             ev.add("wire-" + ("reject" if "parsed:reject" in evs else "accept" if k == "WIRE" else "ser") + "-%d" % (len(op) % 7))
         if "drop" in kinds:
@@ -986,7 +1131,7 @@ def run(chk, replay=None):
         cases = []
         for f in sorted(glob.glob(os.path.join(vlib.ROOT, "corpus", "C19", "*.case"))):
             cases += load_cases(f, "corpus", prefix="corpus_" + os.path.basename(f)[:-5] + "_")
-        for g in (gen_immediate, gen_null_response, gen_permutations, gen_threads, gen_burst, gen_server, gen_down, gen_wire):
+        for g in (gen_immediate, gen_null_response, gen_permutations, gen_threads, gen_burst, gen_server, gen_down, gen_wire, gen_sys):
             cases += list(g(rng, tier))
     hist = {}
     for c in cases:
